@@ -9,7 +9,8 @@ BYTES = "file_bytes(file_path)"
 
 
 def IN(x, l):
-    return f"any({l}[k] == {x} for k in range(len({l})))"
+    # native sequence membership: preserved by z3 across appends (Contains over Concat)
+    return f"({x} in {l})"
 
 
 LOG_OK = (
@@ -24,7 +25,7 @@ GEN_KEYS = (
 
 contract(
     "ascmhl.commands.seal_file_path",
-    bounded="176 of 209 obligations discharge; the preservation of the ghost call-log invariants through the two judging loops "
+    bounded="328 of 358 obligations discharge; the preservation of the ghost call-log invariants through the two judging loops "
     "(whole-field heap havoc by append_file_hash + tuple-valued result dict) stays `unknown` - the ordering of judgements is checked "
     "by the C04 small-world driver on all format-subset sequences instead",
     params={"existing_history": "MHLHistory", "file_path": "str", "hash_formats": "list[str]", "session": "MHLGenerationCreationSession"},
